@@ -40,6 +40,21 @@ pub struct Step {
     pub amount: u64,
     #[serde(default)]
     pub fee: u64,
+    /// milliseconds after the parent (overrides gap)
+    #[serde(default)]
+    pub dt: Option<u64>,
+    /// routing work of the block relative to the requirement: the transaction marked `tune` gets the fee that
+    /// makes the block's work equal needed + tune (C08)
+    #[serde(default)]
+    pub tune: Option<i64>,
+    /// "needed" op: burn fee and elapsed times at which the requirement function is sampled
+    #[serde(default)]
+    pub bf: u64,
+    #[serde(default)]
+    pub dts: Vec<u64>,
+    /// seed of the golden ticket search (lottery outcome)
+    #[serde(default)]
+    pub gt_seed: Option<u64>,
     /// free-form tag copied to the trace (scenario class, expected verdict of the generator ...)
     #[serde(default)]
     pub tag: Option<Value>,
@@ -182,21 +197,35 @@ impl<'a> Runner<'a> {
             .clone()
             .unwrap_or_else(|| format!("b{}", self.blocks.len() + 1));
         let height = self.blocks[&parent].height + 1;
-        let ts = self.ts_after(&parent, st.gap * 2);
+        let ts = match st.dt {
+            Some(dt) => self.blocks[&parent].block.timestamp + dt,
+            None => self.ts_after(&parent, st.gap * 2),
+        };
         let mut builder = self.builder_on(&parent);
         let creator = self.world.keys["c"];
         let mut descs = HashMap::new();
         let mut txs = vec![];
+        let needed = {
+            let p = &self.blocks[&parent].block;
+            BurnFee::return_routing_work_needed_to_produce_block_in_nolan(p.burnfee, ts, p.timestamp, self.world.hb)
+        };
         for d in st.txs.iter() {
             let mut d2 = d.clone();
             d2.ins = d2.ins.iter().map(|n| self.resolve(n)).collect();
+            if let (true, Some(delta)) = (d2.tune, st.tune) {
+                let target = needed as i128 + delta as i128;
+                if target < 0 || target > u64::MAX as i128 / 8 {
+                    return Err(format!("work target {} out of range", target));
+                }
+                d2.fee = fee_for_work(target as u64, d2.path.len().saturating_sub(1));
+            }
             let tx = self.world.make_tx(&d2, ts)?;
             descs.insert(tx.signature, d2);
             txs.push(tx);
         }
         let pb = self.blocks[&parent].block.clone();
         let gt = if st.gt {
-            Some(gt_for(&pb, &self.world.keys["m"], &creator, ts, height))
+            Some(gt_for(&pb, &self.world.keys["m"], &creator, ts, st.gt_seed.unwrap_or(height)))
         } else {
             None
         };
@@ -340,6 +369,10 @@ impl<'a> Runner<'a> {
             "ev": "Block", "scn": self.scn_no, "i": self.step_no, "who": who,
             "label": label, "parent": bb.parent, "h": bb.height, "res": res,
             "gt": b.has_golden_ticket, "txs": txs,
+            "creator": self.world.kn(&b.creator), "hb": self.world.hb,
+            "gtkey": b.transactions.iter().find(|t| t.transaction_type == TransactionType::GoldenTicket)
+                .map(|t| if t.data.len() == 97 { self.world.kn(&t.data[64..97].try_into().unwrap()) } else { "?".to_string() })
+                .unwrap_or_default(),
             "hdr": {"treasury": amt_json(b.treasury), "graveyard": amt_json(b.graveyard),
                     "unpaid": amt_json(b.previous_block_unpaid), "fees": amt_json(b.total_fees),
                     "fees_new": amt_json(b.total_fees_new), "fees_atr": amt_json(b.total_fees_atr),
@@ -579,6 +612,19 @@ pub fn run_scenario(
                     trace.emit(json!({"ev": "Skip", "scn": scn_no, "i": r.step_no, "why": e}));
                 }
             },
+            "needed" => {
+                // samples of the requirement function itself, in ascending elapsed time
+                for dt in st.dts.iter() {
+                    let (bf, hb, dt) = (st.bf, scn.hb, *dt);
+                    let res = guarded(|| BurnFee::return_routing_work_needed_to_produce_block_in_nolan(bf, dt, 0, hb));
+                    let (needed, resn) = match res {
+                        Ok(n) => (n, "ok".to_string()),
+                        Err(p) => (0, format!("Panic:{}", p)),
+                    };
+                    trace.emit(json!({"ev": "Needed", "scn": scn_no, "i": r.step_no, "bf": amt_json(bf), "dt": amt_json(dt),
+                        "hbl": amt_json(hb), "needed": amt_json(needed), "res": resn}));
+                }
+            }
             "redeliver" => {
                 let label = st.label.clone().unwrap_or_default();
                 if r.blocks.contains_key(&label) {
